@@ -11,6 +11,8 @@
 (*                                     repo                                *)
 (*                    v  defect kind / variant inside the class            *)
 (*                    a  parameter (token position class, CIM status code) *)
+(* plus `good`: productions appended to the valid text that is compiled on *)
+(* the same compiler object after the session (empty for most sessions).   *)
 (* The harness (harness/mofgen.py) renders a session to real MOF text and  *)
 (* files; TLC enumerates the sessions (Sessions below) and judges what the *)
 (* real compiler did with them (Fails).                                    *)
@@ -75,7 +77,7 @@ NoneVariants(k) ==
                           "emb_array_ok", "emb_array_one", "of_prev"}
     [] k = "include"  -> {"inc2"}
     [] k = "namespace" -> {"same", "other", "leading_slash", "unknown_pragma",
-                           "locale"}
+                           "locale", "other_full"}
     [] k = "garbage"  -> {"empty", "whitespace", "comment_only"}
 
 \* Variants that relate a production to ANOTHER production of the same text:
@@ -90,7 +92,17 @@ NoneVariants(k) ==
 \*                       of several strings, an array of one string); like an
 \*                       include, the nested compile replaces and must restore
 \*                       the parser's notion of the current text
+\*   namespace other_full
+\*                       switch (by pragma, inside the text) to a namespace that
+\*                       holds everything the productions of the session need
+\*                       (another compiler put it there) but that THIS compiler
+\*                       object has never been told about: its per-namespace
+\*                       caches (qualifier cache, names of known classes) start
+\*                       from nothing there
 \* type/value mismatches and malformed values
+\*   real_huge_int       an integer literal too large for a float as the value
+\*                       of a real32 element (the conversion overflows instead
+\*                       of reporting a bad value)
 ValueKinds(k) ==
   CASE k = "qualDecl" -> {"int_overflow", "huge_int", "neg_unsigned",
                           "str_for_int", "bad_datetime", "int_for_datetime",
@@ -98,7 +110,7 @@ ValueKinds(k) ==
                           "mixed_array", "real_for_int", "int_for_bool",
                           "int_for_string", "char16_long", "real_overflow",
                           "conflicting_flavors", "huge_array_size",
-                          "bool_for_int", "huge_digits"}
+                          "bool_for_int", "huge_digits", "real_huge_int"}
     [] k = "class"    -> {"int_overflow", "huge_int", "neg_unsigned",
                           "str_for_int", "bad_datetime", "int_for_datetime",
                           "array_for_scalar", "scalar_for_array",
@@ -108,7 +120,7 @@ ValueKinds(k) ==
                           "qual_str_for_int", "qual_int_overflow",
                           "qual_array_for_scalar", "qual_conflicting_flavors",
                           "dup_property", "ref_default_int",
-                          "undefined_alias"}
+                          "undefined_alias", "real_huge_int"}
     [] k = "instance" -> {"int_overflow", "huge_int", "neg_unsigned",
                           "str_for_int", "bad_datetime", "int_for_datetime",
                           "array_for_scalar", "scalar_for_array",
@@ -117,7 +129,8 @@ ValueKinds(k) ==
                           "bool_for_int", "huge_digits", "int_for_ref",
                           "str_for_ref",
                           "undefined_alias", "dup_property", "emb_bad_syntax",
-                          "emb_class", "emb_empty", "emb_unknown_class"}
+                          "emb_class", "emb_empty", "emb_unknown_class",
+                          "real_huge_int"}
     [] k = "namespace" -> {"nomatch_colon", "empty", "space", "withhost",
                            "withscheme", "trailing_slash", "double_slash",
                            "hexesc_end"}
@@ -133,6 +146,29 @@ DepKinds(k) ==
                           "class_in_searchpath", "class_cycle_searchpath"}
     [] k = "include"  -> {"missing", "dir", "empty_name", "self", "mutual"}
     [] OTHER -> {}
+
+\* A class whose REF / EmbeddedInstance names an unknown class makes the
+\* compiler walk over ALL elements of the class (properties and method
+\* parameters) to collect the classes it depends on.  Sibling elements of
+\* unusual shape stand next to the unresolved one (parameter a of the
+\* productions class.dependency.unknown_refclass|unknown_embclass; 0 = none):
+\*   1 emb_null        [EmbeddedInstance] without a value on a string property
+\*   2 emb_self        EmbeddedInstance naming the class itself
+\*   3 ref_self        a REF to the class itself
+\*   4 param_unknown   the unknown class is named by a method parameter
+\*   5 param_emb_null  [EmbeddedInstance] without a value on a method parameter
+\*   6 emb_nonstring   EmbeddedInstance on a property that is not a string
+SibShapes == 1..6
+SibKinds == {"unknown_refclass", "unknown_embclass"}
+
+\* How the parameter of an include pragma spells the path of the file (0 = the
+\* plain relative or absolute path).  All spellings name the same file; the
+\* spelled ones are relative paths with a redundant component:
+\*   1 dot       ./<path>
+\*   2 updown    <existing directory>/../<path>
+\*   3 parent    ../<name of the including file's directory>/<path>
+PathSpell == 1..3
+SpelledIncludes == {"self", "mutual"}
 
 \* repository operations a production of kind k performs; the repository stub
 \* rejects the operation with status code a, once or always
@@ -164,6 +200,13 @@ Catalog(k) ==
         THEN {P(k, "syntax", v, 0) : v \in PragmaSyn} ELSE {})
   \cup {P(k, "value", v, 0) : v \in ValueKinds(k)}
   \cup {P(k, "dependency", v, 0) : v \in DepKinds(k)}
+  \cup (IF k = "class"
+        THEN {P(k, "dependency", v, a) : v \in SibKinds, a \in SibShapes}
+        ELSE {})
+  \cup (IF k = "include"
+        THEN {P(k, "dependency", v, a) : v \in SpelledIncludes, a \in PathSpell}
+             \cup {P(k, "none", "inc2", a) : a \in PathSpell}
+        ELSE {})
   \cup {P(k, "repo", op, c) : op \in RepoOps(k), c \in RepoArgs}
 
 FocusOf(kinds) == UNION {Catalog(k) : k \in kinds}
@@ -199,7 +242,8 @@ Insert(t, pos, f) == SubSeq(t, 1, pos - 1) \o <<f>> \o SubSeq(t, pos, Len(t))
 
 SessionsA(n, kinds) ==
   {[main |-> Insert(t, pos, f),
-    inc |-> IF MainOnly(f) THEN <<PlainOf("class")>> ELSE << >>]
+    inc |-> IF MainOnly(f) THEN <<PlainOf("class")>> ELSE << >>,
+    good |-> << >>]
    : f \in {x \in FocusOf(kinds) : ~IncOnly(x) /\ (x.d = "repo" => n <= 2)},
      pos \in 1..n, t \in CtxTuples(n - 1)}
 
@@ -209,12 +253,12 @@ IncForm(f, j) == CASE j = 1 -> <<f>>
                    [] j = 2 -> <<PlainOf("class"), f>>
                    [] j = 3 -> <<f, PlainOf("class")>>
 SessionsB(kinds) ==
-  {[main |-> x[2], inc |-> IncForm(x[1], x[3])]
+  {[main |-> x[2], inc |-> IncForm(x[1], x[3]), good |-> << >>]
    : x \in {y \in {z \in FocusOf(kinds) : ~MainOnly(z)} \X MainsB \X (1..3)
             : y[1].d = "repo" => (y[2] = <<Inc2>> /\ y[3] = 1)}}
 
 SessionsC(kinds) ==
-  {[main |-> <<Inc2, f>>, inc |-> <<PlainOf("class")>>]
+  {[main |-> <<Inc2, f>>, inc |-> <<PlainOf("class")>>, good |-> << >>]
    : f \in {x \in FocusOf(kinds) : ~IncOnly(x) /\ ~MainOnly(x)}}
 
 (*  D    nested compile, then an error: a valid production that runs a      *)
@@ -237,23 +281,55 @@ ErrClasses == {"lex", "syntax", "value", "dependency"}
 
 SessionsD(kinds) ==
   {[main |-> IF j = 1 THEN <<n, f>> ELSE <<Inc2, f>>,
-    inc |-> IF j = 1 THEN << >> ELSE <<n>>]
+    inc |-> IF j = 1 THEN << >> ELSE <<n>>, good |-> << >>]
    : f \in {x \in FocusOf(kinds) : x.d \in ErrClasses /\ ~IncOnly(x)},
      n \in NestedOk, j \in 1..2}
 
 SessionsE(kinds) ==
   {[main |-> IF j = 2 THEN <<f, OfPrev>> ELSE <<f, SubOfPrev, OfPrev>>,
-    inc |-> << >>]
+    inc |-> << >>, good |-> << >>]
    : f \in {x \in FocusOf(kinds \cap {"class"}) : x.d # "repo"
                                                   /\ x \notin Helpers},
      j \in 2..3}
 
+(*  F    failed declaration, then valid MOF that needs the class: a class   *)
+(*       production that cannot be compiled (value or dependency defect),   *)
+(*       and afterwards - same compiler object, the "good" call - a valid   *)
+(*       production that depends on a class of that name in each of the     *)
+(*       ways a production can depend on a class (REF property, Embedded-   *)
+(*       Instance, REF parameter, superclass, instance of), the name spelled*)
+(*       as declared / in lower case / in upper case (class names are case  *)
+(*       insensitive).  A valid declaration of the class is available as    *)
+(*       <name>.mof on the search path, so a fresh compiler compiles the    *)
+(*       dependent production; the used one must do the same.               *)
+(*  G    everything again in a namespace entered by pragma: the namespace   *)
+(*       pragma other_full, then every qualifier/class/instance focus       *)
+(*       production (valid variants, value and dependency defects)          *)
+RetryClassUses == {"ref_failed", "emb_failed", "param_failed", "sub_failed"}
+NameSpell == 0..2    \* as declared, lower case, upper case
+Retry == {P("class", "none", u, s) : u \in RetryClassUses, s \in NameSpell}
+         \cup {P("instance", "none", "of_failed", s) : s \in NameSpell}
+NsFull == P("namespace", "none", "other_full", 0)
+
+SessionsF(kinds) ==
+  {[main |-> <<f>>, inc |-> << >>, good |-> <<r>>]
+   : f \in {x \in FocusOf(kinds \cap {"class"})
+              : x.d \in {"value", "dependency"} /\ x.v # "super_self"},
+     r \in Retry}
+
+SessionsG(kinds) ==
+  {[main |-> <<NsFull, f>>, inc |-> << >>, good |-> << >>]
+   : f \in {x \in FocusOf(kinds \cap {"qualDecl", "class", "instance"})
+              : x.d \in {"none", "value", "dependency"}}}
+
 SessionParts(maxprod, kinds) ==
-  [i \in 1..(maxprod + 4) |->
+  [i \in 1..(maxprod + 6) |->
      IF i <= maxprod THEN SessionsA(i, kinds)
      ELSE IF i = maxprod + 1 THEN SessionsB(kinds)
      ELSE IF i = maxprod + 2 THEN SessionsC(kinds)
-     ELSE IF i = maxprod + 3 THEN SessionsD(kinds) ELSE SessionsE(kinds)]
+     ELSE IF i = maxprod + 3 THEN SessionsD(kinds)
+     ELSE IF i = maxprod + 4 THEN SessionsE(kinds)
+     ELSE IF i = maxprod + 5 THEN SessionsF(kinds) ELSE SessionsG(kinds)]
 
 AllProds(ses) == Rng(ses.main) \cup Rng(ses.inc)
 
@@ -281,7 +357,11 @@ Admissible(ses) ==
 (*          k = k-th file of the session, 99 = some other path; -1 = None  *)
 (*  texts   the texts of the session: [fid, lens] = line lengths           *)
 (*  digest, refout, refdigest   (good call) abstract dump of the objects   *)
-(*          the valid MOF defines, and the same for a fresh compiler       *)
+(*          the valid MOF defines, and the same for a fresh compiler; for  *)
+(*          the sessions of part F the fresh compiler object works on a    *)
+(*          repository with the same history (what a failed compile leaves *)
+(*          in the REPOSITORY is not constrained by the statement, so the  *)
+(*          reference may also end in a MOFCompileError there)             *)
 (***************************************************************************)
 IsMOFCompileError(e) == "MOFCompileError" \in Rng(e.mro)
 IsOSError(e) == "OSError" \in Rng(e.mro)
@@ -296,7 +376,7 @@ ColOk(e, i) == e.column >= 0 /\ e.column <= MaxOf(Rng(e.texts[i].lens)) + 1
 ColInLine(e, i) == LineOk(e, i) /\ e.column >= 0
                    /\ e.column <= e.texts[i].lens[e.lineno] + 1
 
-InitState == [failed |-> FALSE, calls |-> 0, handle |-> ""]
+InitState == [failed |-> FALSE, calls |-> 0, handle |-> "", retry |-> FALSE]
 
 Fails(s, e) ==
   LET positioned == IsMOFCompileError(e) /\ e.haspos IN
@@ -312,7 +392,8 @@ Fails(s, e) ==
          ~positioned \/ ~(\E i \in Cands(e) : LineOk(e, i))
          \/ \E i \in Cands(e) : LineOk(e, i) /\ ColOk(e, i))
   \cup (IF e.call = "good" /\ s.failed /\ s.handle # "mockapi"
-        THEN F("Harness.ReferenceCompileOk", e.refout = "ok")
+        THEN F("Harness.ReferenceCompileOk",
+               e.refout = "ok" \/ (s.retry /\ e.refout \in MOFErrors))
              \cup F("ReusableAfterFailure.Outcome", e.out = e.refout)
              \cup F("ReusableAfterFailure.Result",
                     e.out # "ok" \/ e.digest = e.refdigest)
@@ -327,5 +408,7 @@ Fails(s, e) ==
 Apply(s, e) ==
   [failed |-> s.failed \/ (e.call = "bad" /\ e.out # "ok"),
    calls |-> s.calls + 1,
-   handle |-> IF e.call = "bad" THEN e.ses.handle ELSE s.handle]
+   handle |-> IF e.call = "bad" THEN e.ses.handle ELSE s.handle,
+   \* part F: the good text depends on a class the session dealt with
+   retry |-> IF e.call = "bad" THEN e.ses.good # << >> ELSE s.retry]
 =============================================================================
